@@ -2,11 +2,14 @@
    Property theorems only.  Model: Model/Condorcet.v; proofs: Proofs/Condorcet_proofs.v.
 
    Proved for every pairwise dictionary (distinct keys, non-negative counts, absent
-   pair = 0): Copeland (raw and second-order) elects the Condorcet winner alone.
-   The remaining clauses of the property (Schulze / minimax / ranked pairs / Kemeny
-   Condorcet-winner consistency, Smith-efficiency, nobody dropped) are stated below
-   as full statements and are decided per case by the verified-model correspondence
-   plus brute-force references in the check (C05 evidence: "partial"). *)
+   pair = 0): Copeland (raw and second-order), minimax (winning votes, margins) and
+   ranked pairs elect the Condorcet winner alone; Kemeny-Young returns the Condorcet
+   winner or its declared refusal; defining computations of Copeland, Kemeny-Young
+   (unique best permutation) and ranked pairs (locked total order); nobody dropped for
+   minimax, ranked pairs, Kemeny-Young.  The remaining clauses (Schulze, Smith-efficiency
+   of ranked pairs / Kemeny) are stated below as full statements and are decided per
+   case by the verified-model correspondence plus brute-force references in the check
+   (C05 evidence: "partial"). *)
 From Coq Require Import ZArith List Arith.
 From VL Require Import Prelude.PyDict Model.GetNBest Model.Condorcet Proofs.Condorcet_proofs Proofs.CopelandMono_proofs Proofs.SmithCopeland_proofs Proofs.Minimax_proofs.
 Import ListNotations.
@@ -67,8 +70,130 @@ Example C05_example :
                  ((2%positive, 3%positive), 2); ((3%positive, 2%positive), 2)] 1 = [Cand 1%positive].
 Proof. vm_compute. reflexivity. Qed.
 
+(* ---------------------------------------------------------------- Kemeny-Young and ranked pairs *)
+From Coq Require Import Permutation Sorted Lia.
+From VL Require Import Proofs.Kemeny_proofs Proofs.RankedPairs_proofs.
+
+(* Kemeny-Young, Condorcet winner: for EVERY pairwise dictionary the answer for one seat is the Condorcet winner or the
+   evaluator's refusal (NotImplementedError of Tie.tie_rankings when several rankings share the best score) - never another
+   candidate: the winner heads every best ranking because moving it to the front gains votes. *)
+Theorem C05_cw_kemeny : forall (v : pvotes) c,
+  is_cw v c -> kemeny v 1 = CR_ok [Cand c] \/ kemeny v 1 = CR_nie.
+Proof. exact kemeny_elects_cw. Qed.
+
+(* defining computation: an answer is the first n entries of THE ranking of all candidates whose Kemeny score is >= that
+   of every ranking and > that of every other ranking ... *)
+Theorem C05_kemeny_defining : forall (v : pvotes) n r, kemeny v n = CR_ok r ->
+  exists p, Permutation p (candidates v) /\ r = map Cand (firstn n p) /\
+    (forall q, Permutation q (candidates v) -> kemeny_score v q <= kemeny_score v p) /\
+    (forall q, Permutation q (candidates v) -> q <> p -> kemeny_score v q < kemeny_score v p).
+Proof.
+  intros v n r H. destruct (kemeny_defining v n r H) as (p & (Hp & Hge & Hgt) & _ & Hr). exists p. tauto.
+Qed.
+
+(* ... and conversely the evaluator answers with it whenever such a ranking exists, and refuses exactly when none does
+   (counts non-negative: the scan starts from best_score = 0) *)
+Theorem C05_kemeny_answers : forall (v : pvotes) n p, (forall q, 0 <= pget0 v q) ->
+  kemeny_best v p -> kemeny v n = CR_ok (map Cand (firstn n p)).
+Proof. intros v n p Hnn Hb. apply kemeny_complete; [exact Hb|apply kemeny_score_nonneg, Hnn]. Qed.
+
+Theorem C05_kemeny_refusal : forall (v : pvotes) n, (forall p m, In (p, m) v -> 0 <= m) ->
+  (kemeny v n = CR_nie <-> ~ exists p, kemeny_best v p) /\ (kemeny v n = CR_nie \/ exists r, kemeny v n = CR_ok r).
+Proof.
+  intros v n Hnn. split; [apply kemeny_refuses_iff, pget0_nn, Hnn|].
+  destruct (kemeny_cases v n) as [(p & Hp)|H]; [right; eexists; exact Hp|left; exact H].
+Qed.
+
+Theorem C05_kemeny_nobody_dropped : forall (v : pvotes) r x,
+  kemeny v (length (candidates v)) = CR_ok r -> In x (candidates v) -> In (Cand x) r.
+Proof. exact kemeny_nobody_dropped. Qed.
+
+(* the enumeration the evaluator scans is exactly the set of rankings of the candidates, each listed once *)
+Theorem C05_permutations : forall (l p : list C),
+  (In p (permutations l) <-> Permutation p l) /\ (NoDup l -> NoDup (permutations l)).
+Proof. intros l p. split; [apply permutations_spec|apply permutations_NoDup]. Qed.
+
+(* the Kemeny clause of C05_cw_full_statement (an answer, not a refusal) is FALSE of the evaluator: a Condorcet winner
+   followed by a tie makes it refuse (KemenyYoung().evaluate raises NotImplementedError on this dictionary) *)
+Definition C05_kemeny_tied_tail : pvotes :=
+  [((1%positive, 2%positive), 3); ((2%positive, 1%positive), 1);
+   ((1%positive, 3%positive), 3); ((3%positive, 1%positive), 1);
+   ((2%positive, 3%positive), 2); ((3%positive, 2%positive), 2)].
+Theorem C05_cw_kemeny_answer_refuted : exists v c, well_formed v /\ is_cw v c /\ kemeny v 1 = CR_nie.
+Proof.
+  exists C05_kemeny_tied_tail, 1%positive. split; [|split].
+  - split; [|split].
+    + vm_compute. repeat (constructor; [simpl; intros H; repeat (destruct H as [H|H]; [discriminate H|]); exact H|]). constructor.
+    + intros p n H. vm_compute in H. repeat (destruct H as [H|H]; [injection H as _ <-; lia|]). destruct H.
+    + vm_compute. lia.
+  - split; [vm_compute; tauto|]. intros x Hx Hne. vm_compute in Hx.
+    destruct Hx as [<-|[<-|[<-|[]]]]; [congruence|vm_compute; reflexivity|vm_compute; reflexivity].
+  - vm_compute. reflexivity.
+Qed.
+Theorem C05_cw_full_statement_refuted : ~ C05_cw_full_statement.
+Proof.
+  intros H. destruct C05_cw_kemeny_answer_refuted as (v & c & Hw & Hc & Hk).
+  destruct (H v c Hw Hc) as (_ & _ & _ & _ & _ & Hk'). rewrite Hk in Hk'. discriminate.
+Qed.
+
+(* Ranked pairs (all three pairwise scorers): the evaluator never refuses; its answer lists ALL candidates along the
+   locked relation, which is a strict total order (every candidate precedes exactly those it is locked over) ... *)
+Theorem C05_ranked_pairs_defining : forall (v : pvotes) s n, (2 <= length (candidates v))%nat ->
+  exists ranking, ranked_pairs s v n = CR_ok (map Cand (firstn n ranking)) /\ Permutation ranking (candidates v) /\
+    StronglySorted (fun a b => In (a, b) (lock_pairs (rp_pairs s v))) ranking.
+Proof. intros v s n H2. exact (ranked_pairs_ranking v s H2 n). Qed.
+
+(* ... where the pairs are taken by descending strength under the scorer and each is locked unless the pairs locked
+   before it already lead from its loser to its winner *)
+Theorem C05_ranked_pairs_lock : forall (v : pvotes) s,
+  StronglySorted (fun p q => sc v s (fst q) (snd q) <= sc v s (fst p) (snd p)) (rp_pairs s v) /\
+  (forall a b, In (a, b) (rp_pairs s v) <-> In a (candidates v) /\ In b (candidates v) /\ a <> b) /\
+  (forall l1 a b l2, rp_pairs s v = l1 ++ (a, b) :: l2 -> a <> b -> ~ In (a, b) l1 -> ~ In (a, b) l2 ->
+     (In (a, b) (lock_pairs (rp_pairs s v)) <-> ~ path (lock_pairs l1) b a)) /\
+  (forall x, ~ path (lock_pairs (rp_pairs s v)) x x).
+Proof.
+  intros v s. split; [apply rp_pairs_sorted|]. split; [apply rp_pairs_in|]. split.
+  - intros l1 a b l2 E. rewrite E. apply lock_spec.
+  - apply lock_acyclic. intros a b H. apply rp_pairs_in in H. tauto.
+Qed.
+
+Theorem C05_cw_ranked_pairs : forall (v : pvotes) s c,
+  (forall p n, In (p, n) v -> 0 <= n) -> (2 <= length (candidates v))%nat ->
+  is_cw v c -> ranked_pairs s v 1 = CR_ok [Cand c].
+Proof. intros v s c Hnn H2. exact (ranked_pairs_elects_cw v s H2 Hnn c). Qed.
+
+Theorem C05_ranked_pairs_nobody_dropped : forall (v : pvotes) s, (2 <= length (candidates v))%nat ->
+  exists r, ranked_pairs s v (length (candidates v)) = CR_ok r /\ forall x, In x (candidates v) -> In (Cand x) r.
+Proof. intros v s H2. exact (ranked_pairs_nobody_dropped v s H2). Qed.
+
+(* non-vacuity: a profile with a Condorcet winner and a unique best ranking *)
+Definition C05_kemeny_example : pvotes :=
+  [((2%positive, 3%positive), 5); ((3%positive, 2%positive), 1);
+   ((1%positive, 3%positive), 3); ((3%positive, 1%positive), 1);
+   ((1%positive, 2%positive), 4); ((2%positive, 1%positive), 2)].
+Example C05_kemeny_example_cw : is_cw C05_kemeny_example 1%positive /\
+  kemeny C05_kemeny_example 1 = CR_ok [Cand 1%positive] /\
+  kemeny C05_kemeny_example 3 = CR_ok [Cand 1%positive; Cand 2%positive; Cand 3%positive] /\
+  ranked_pairs Margins C05_kemeny_example 3 = CR_ok [Cand 1%positive; Cand 2%positive; Cand 3%positive].
+Proof.
+  split; [|vm_compute; auto]. split; [vm_compute; tauto|]. intros x Hx Hne. vm_compute in Hx.
+  destruct Hx as [<-|[<-|[<-|[]]]]; [vm_compute; reflexivity|vm_compute; reflexivity|congruence].
+Qed.
+
 Print Assumptions C05_cw_copeland.
 Print Assumptions C05_copeland_score.
 Print Assumptions C05_smith_copeland.
 Print Assumptions C05_cw_minimax.
 Print Assumptions C05_minimax_nobody_dropped.
+Print Assumptions C05_cw_kemeny.
+Print Assumptions C05_kemeny_defining.
+Print Assumptions C05_kemeny_answers.
+Print Assumptions C05_kemeny_refusal.
+Print Assumptions C05_kemeny_nobody_dropped.
+Print Assumptions C05_permutations.
+Print Assumptions C05_cw_kemeny_answer_refuted.
+Print Assumptions C05_cw_full_statement_refuted.
+Print Assumptions C05_ranked_pairs_defining.
+Print Assumptions C05_ranked_pairs_lock.
+Print Assumptions C05_cw_ranked_pairs.
+Print Assumptions C05_ranked_pairs_nobody_dropped.
